@@ -79,7 +79,8 @@ def handle (j : Json) : Except String Json := do
       flags := ← envOf (← j.getObjVal? "flags"), defaults := ← envOf (← j.getObjVal? "defaults"),
       newlineKeys := ← j.getObjValAs? Bool "nk", newlineValues := ← j.getObjValAs? Bool "nv",
       allowEscapes := ← j.getObjValAs? Bool "esc", singleLine := ← j.getObjValAs? Bool "sl",
-      singleBlock := ← j.getObjValAs? Bool "sb" }
+      singleBlock := ← j.getObjValAs? Bool "sb",
+      guardFlagBlock := Gen.Kvser.parseGuards.1, guardFlagLeaf := Gen.Kvser.parseGuards.2 }
     let r ← match j.getObjVal? "chunks" with
       | .ok cj => do
         let cs ← (← cj.getArr?).toList.mapM Wire.strOfCodes
